@@ -231,7 +231,11 @@ func runC04(t *testing.T, r *engine.Run) {
 		}
 		switch kind {
 		case "ack_again":
-			mustSilent = true
+			// Not after a rejection: istio ignores the resource names carried by a NACK, so if the subscription
+			// changed in a request that crossed the rejected response (stale nonce, ignored) the server's record
+			// lags until the next ACK, which it then answers with the names it had missed (seed 1 run 9579 of the
+			// quick tier: RDS [80] -> [80 81] crossing a rejected response). The statement exempts rejections.
+			mustSilent = !s.rejected
 			if c.delta {
 				req = &discovery.DeltaDiscoveryRequest{TypeUrl: typ, ResponseNonce: s.nonce}
 			} else {
@@ -277,7 +281,7 @@ func runC04(t *testing.T, r *engine.Run) {
 		r.Logf("event %s on %s -> response parked: %v", kind, shortType(typ), answered)
 		r.Probe("event_" + kind)
 		if mustSilent && answered {
-			r.Fail("c04.answered_when_silence_required", kind+":"+shortType(typ), "%s on %s (delta=%v) was answered although the protocol requires silence", kind, shortType(typ), c.delta)
+			r.Fail("c04.answered_when_silence_required", kind+":"+shortType(typ), "%s on %s (delta=%v) was answered although the protocol requires silence; request names=%v (last request %v), response: %s", kind, shortType(typ), c.delta, names, s.lastReq, w.parkedDesc(c))
 			return
 		}
 		if mustAnswer && !answered {
